@@ -106,7 +106,16 @@ def run(rep, tier):
         nx += 1
         if not r.get("ok"):
             rep.violation("wire/x-matrix-header-does-not-round-trip", r)
-    rep.part("wire", requests=len(wr), responses=nresp, xmatrix=nx, real_selection_records=len(recs) - len(wr))
+    # header and body helpers the endpoints share: Content-Disposition file names, filters with a single non-default field
+    _, sh, _ = vlib.run_harness(["shared"], pkg="vh-api")
+    nsh = 0
+    for ln in sh.splitlines():
+        r = json.loads(ln)
+        nsh += 1
+        if not r.get("ok"):
+            rep.violation("wire/%s-does-not-round-trip" % r["what"], r)
+    nx += nsh
+    rep.part("wire", requests=len(wr), responses=nresp, xmatrix=nx - nsh, shared_header_and_filter_round_trips=nsh, real_selection_records=len(recs) - len(wr))
     rep.cov["evaluations"] = len(cases) * 2 + nsub + len(recs) + nresp + nx
     rep.cov["distinct_nontrivial"] = nontriv + sum(1 for r in wr if any(c > 127 or chr(c) in "/%?#+&= " for a in r["args"] for c in a))
     rep.cov["traces_validated_against_impl"] += len(cases)
